@@ -3,6 +3,8 @@ package checks
 import (
 	"encoding/json"
 	"fmt"
+	"github.com/inbucket/inbucket/v3/pkg/extension"
+	"github.com/inbucket/inbucket/v3/pkg/extension/event"
 	"os"
 	"strings"
 
@@ -99,10 +101,13 @@ func c05Predicates(c *fw.Ctx, cfg c05Cfg) {
 }
 
 type c05SessCase struct {
-	Cfg     c05Cfg   `json:"cfg"`
-	Senders []string `json:"senders"`
-	Rcpts   []string `json:"rcpts"`
-	Backend string   `json:"backend"`
+	// ExtAllow: an extension answers every before-RCPT event with "allow"; that overrides the
+	// domain accept/reject rule, never the recipient limit and never the store/discard rule
+	ExtAllow bool     `json:"ext_allow,omitempty"`
+	Cfg      c05Cfg   `json:"cfg"`
+	Senders  []string `json:"senders"`
+	Rcpts    []string `json:"rcpts"`
+	Backend  string   `json:"backend"`
 }
 
 // c05Session checks reply classes of MAIL/RCPT, the recipient limit and the stored set.
@@ -110,7 +115,15 @@ func c05Session(c *fw.Ctx, cas c05SessCase) (nontrivial bool) {
 	conf := cas.Cfg.load()
 	smtp := conf.SMTP
 	smtp.Domain = "verif.test"
-	s := sys.New(sys.Spec{Store: sys.StoreSpec{Backend: cas.Backend}, SMTP: smtp, NoHub: true})
+	spec := sys.Spec{Store: sys.StoreSpec{Backend: cas.Backend}, SMTP: smtp, NoHub: true}
+	if cas.ExtAllow {
+		spec.PreLua = func(h *extension.Host) {
+			h.Events.BeforeRcptToAccepted.AddListener("allow-all", func(event.SMTPSession) *event.SMTPResponse {
+				return &event.SMTPResponse{Action: event.ActionAllow}
+			})
+		}
+	}
+	s := sys.New(spec)
 	defer s.Close()
 	mo := cas.Cfg.model()
 	k := s.DialSMTP()
@@ -135,10 +148,11 @@ func c05Session(c *fw.Ctx, cas c05SessCase) (nontrivial bool) {
 		accepted := 0
 		for _, rc := range cas.Rcpts {
 			r := d.Cmd("RCPT TO:<" + rc + ">")
-			want := mo.AcceptRcpt(model.DomainOf(rc)) && accepted < mo.MaxRecipients
+			domainOK := mo.AcceptRcpt(model.DomainOf(rc)) || cas.ExtAllow
+			want := domainOK && accepted < mo.MaxRecipients
 			if (r.Class() == 2) != want {
 				why := "domain rule"
-				if mo.AcceptRcpt(model.DomainOf(rc)) {
+				if domainOK {
 					why = fmt.Sprintf("recipient limit %d with %d already accepted", mo.MaxRecipients, accepted)
 				}
 				fail("rcpt|class", fmt.Sprintf("RCPT TO:<%s> answered %s; expected accept=%v (%s)", rc, r.String(), want, why))
@@ -257,6 +271,30 @@ func c05Run(c *fw.Ctx) {
 									}
 								}
 							}
+						}
+					}
+				}
+			}
+		}
+	}
+	// an extension that allows every recipient: the recipient limit and the store rule still hold
+	for _, da := range []bool{true, false} {
+		for _, rej := range sl {
+			for _, dis := range sl {
+				for _, mr := range []int{1, 2, 3} {
+					for _, order := range rcptOrders {
+						n++
+						if !c.Mine(n) {
+							continue
+						}
+						cas := c05SessCase{ExtAllow: true, Cfg: c05Cfg{da, true, nil, rej, nil, dis, nil, mr}, Senders: []string{"s@o.test", "t@o.test"}, Rcpts: order, Backend: "mem"}
+						if !c.Begin(func() any { return cas }) {
+							continue
+						}
+						var nt bool
+						c.Guard("session", cas, func() { nt = c05Session(c, cas) })
+						if nt {
+							c.Nontrivial(1)
 						}
 					}
 				}
